@@ -36,6 +36,7 @@ from mxlpy.scan import (
     TimeCourseWorker,
     _protocol_time_course_worker,
     _protocol_worker,
+    _require_unique_index,
     _steady_state_worker,
     _time_course_worker,
     _update_parameters_and_initial_conditions,
@@ -209,6 +210,8 @@ def time_course(
         Both dataframes are of shape (#time_points * #mc_to_scan, #variables)
 
     """
+    _require_unique_index(mc_to_scan)
+
     if y0 is not None:
         model.update_variables(y0)
 
@@ -266,6 +269,8 @@ def protocol(
         Both dataframes are of shape (#time_points * #mc_to_scan, #variables)
 
     """
+    _require_unique_index(mc_to_scan)
+
     if y0 is not None:
         model.update_variables(y0)
 
@@ -324,6 +329,8 @@ def protocol_time_course(
         Both dataframes are of shape (#time_points * #mc_to_scan, #variables)
 
     """
+    _require_unique_index(mc_to_scan)
+
     if y0 is not None:
         model.update_variables(y0)
 
@@ -419,6 +426,8 @@ def scan_steady_state(
         McSteadyStates: Object containing the steady state solutions for the given parameter
 
     """
+    _require_unique_index(mc_to_scan)
+
     if y0 is not None:
         model.update_variables(y0)
 
